@@ -313,9 +313,7 @@ def strip_all_attrs(text):
                 j += 1
             if j < n and text[j] == '[' and m[j]:
                 k = rscan.match_close(text, m, j) + 1
-                while k < n and text[k] in ' \t':
-                    k += 1
-                if k < n and text[k] == '\n':
+                while k < n and text[k].isspace():
                     k += 1
                 i = k
                 continue
